@@ -194,6 +194,9 @@ class Ctx:
         if os.environ.get("VERIF_REPO"):      # mutation trial against a scratch worktree: never evidence
             evdir = "/tmp/verif-trial-evidence"
             os.makedirs(evdir, exist_ok=True)
+        elif os.environ.get("VERIF_EVIDENCE_DIR"):   # extra runs (seed sweeps) that must not replace the committed evidence
+            evdir = os.environ["VERIF_EVIDENCE_DIR"]
+            os.makedirs(evdir, exist_ok=True)
         with open(os.path.join(evdir, "%s.json" % self.id), "w") as f:
             json.dump(ev, f, indent=1, default=str)
         shutil.rmtree(self.scratch, ignore_errors=True)
